@@ -47,6 +47,7 @@ Extracted (every other shape fails closed):
       ARebuilt ks `self.A = [ModelFunction(**d) for d in state["k"]]` where __getstate__ stored one dict literal per
                   element of self.A whose keys ks are constructor arguments of ModelFunction
       AMissing    not set by __setstate__ (or its key is not in the state)
+    and whether the class has a __deepcopy__ of its own (without one, deep copies go through the same hooks)
     __reduce__ / __reduce_ex__ / __getnewargs__ / __getnewargs_ex__ / copyreg / any other statement shape: fail closed
                                                                                               -> src_pickle_hooks
 """
@@ -633,18 +634,29 @@ def _rebuilt(val, state: str, gtab, attr: str):
     return kept
 
 
-def _hook_row(cls: ast.ClassDef):
-    meths = {n.name: n for n in cls.body if isinstance(n, (ast.FunctionDef, ast.AsyncFunctionDef))}
+def _hook_row(cls: ast.ClassDef, ancestors=()):
+    """the row of one class: its own hooks or the nearest inherited ones (ancestors = the scanned base classes, nearest
+    first), judged against every attribute the __init__ of the class and of its ancestors set"""
+    chain = [cls, *ancestors]
+    meths: dict = {}
+    for c in reversed(chain):
+        meths.update({n.name: n for n in c.body if isinstance(n, (ast.FunctionDef, ast.AsyncFunctionDef))
+                      if n.name != "__init__"})
     for h in OPAQUE_HOOKS:
         if h in meths:
             fail(meths[h], f"class {cls.name} defines {h}: what a pickle round trip restores is not known")
     gs, ss = meths.get("__getstate__"), meths.get("__setstate__")
     if gs is None and ss is None:
         return None
-    if "__init__" not in meths:
-        fail(cls, f"class {cls.name} has pickle hooks but no __init__ of its own")
-    init = _init_attrs(meths["__init__"])
-    init_params = set(params_of(meths["__init__"]))
+    inits = [n for c in chain for n in c.body if isinstance(n, ast.FunctionDef) and n.name == "__init__"]
+    if not inits:
+        fail(cls, f"class {cls.name} has pickle hooks but no __init__ among the scanned classes")
+    init: dict = {}
+    init_params: set = set()
+    for fn in inits:
+        for a, vals in _init_attrs(fn).items():
+            init.setdefault(a, []).extend(vals)
+        init_params |= set(params_of(fn))
     gtab = _getstate_table(gs)
     restored: dict = {}
 
@@ -715,11 +727,11 @@ def _hook_row(cls: ast.ClassDef):
                 all_keys()
             else:
                 fail(st, "unknown statement in __setstate__")
-    return cls.name, [(a, restored.get(a, "AMissing")) for a in sorted(init)]
+    return cls.name, "__deepcopy__" in meths, [(a, restored.get(a, "AMissing")) for a in sorted(init)]
 
 
 def pickle_rows(repo: Path):
-    rows = []
+    classes: dict = {}
     for d in PICKLE_DIRS:
         base = repo / d
         if not base.is_dir():
@@ -731,17 +743,32 @@ def pickle_rows(repo: Path):
                 if isinstance(n, ast.Call) and u(n.func) in ("copyreg.pickle", "copyreg.constructor"):
                     fail(n, f"{rel}: copyreg registration")
                 if isinstance(n, ast.ClassDef):
-                    row = _hook_row(n)
-                    if row is not None:
-                        rows.append(row)
-    names = [r[0] for r in rows]
-    if len(set(names)) != len(names):
-        fail(None, f"two hooked classes with one name: {names}")
+                    hooked = any(isinstance(m, ast.FunctionDef) and m.name in ("__getstate__", "__setstate__") + OPAQUE_HOOKS
+                                 for m in n.body)
+                    if n.name in classes and (hooked or classes[n.name][1]):
+                        fail(n, f"two classes named {n.name}, one with pickle hooks")
+                    classes.setdefault(n.name, (n, hooked))
+
+    def ancestors(n: ast.ClassDef, seen=()):
+        out = []
+        for b in n.bases:
+            nm = u(b).split(".")[-1].split("[")[0]
+            if nm in classes and nm not in seen:
+                out.append(classes[nm][0])
+                out += ancestors(classes[nm][0], seen + (nm,))
+        return out
+
+    rows = []
+    for name in sorted(classes):
+        row = _hook_row(classes[name][0], ancestors(classes[name][0], (name,)))
+        if row is not None:
+            rows.append(row)
     return rows
 
 
 def render_hooks(rows) -> str:
-    body = ";\n  ".join('mkHook "%s" [%s]' % (c, "; ".join('("%s", %s)' % (a, r) for a, r in attrs)) for c, attrs in rows)
+    body = ";\n  ".join('mkHook "%s" %s [%s]' % (c, "true" if dc else "false", "; ".join('("%s", %s)' % (a, r) for a, r in attrs))
+                         for c, dc, attrs in rows)
     return ("\n(* pickle hooks (__getstate__ / __setstate__) of the classes whose objects travel to the workers of a process\n"
             "   pool: for every attribute __init__ sets, how it comes back from a round trip *)\n"
             "Definition src_pickle_hooks : list hook_row := [\n  " + body + "\n]%string.\n")
@@ -770,7 +797,7 @@ Definition src_bfe_row_major : bool := {bfe}.
 """
 
 
-HOOKS_UNCHANGED = [("ModelGroup", [("_log", "ARecreated"), ("_name", "AWhole"), ("models", "AWhole")])]
+HOOKS_UNCHANGED = [("ModelGroup", True, [("_log", "ARecreated"), ("_name", "AWhole"), ("models", "AWhole")])]
 
 
 def render(seq, prod, custom, bind="BindPosition", same=True, names=True, types=True, tuples=True, fidx=True,
